@@ -189,6 +189,8 @@ func (h *Hub) registerSubscriber(w http.ResponseWriter, r *http.Request) (*Local
 	h.dispatchSubscriptionUpdate(s, true)
 	if err := h.transport.AddSubscriber(s); err != nil {
 		http.Error(w, http.StatusText(http.StatusServiceUnavailable), http.StatusServiceUnavailable)
+		// the transport may have registered the subscriber before failing (history replay error)
+		_ = h.transport.RemoveSubscriber(s)
 		h.dispatchSubscriptionUpdate(s, false)
 		if c := h.logger.Check(zap.ErrorLevel, "Unable to add subscriber"); c != nil {
 			c.Write(zap.Object("subscriber", s), zap.Error(err))
